@@ -380,6 +380,17 @@ class Facts:
                         cands.append(fn)
                     elif fn.file.replace('/src/', '::').replace('/', '::').replace('.rs', '').endswith('::'.join(parts[:-1])) and (fn.owner is None):
                         cands.append(fn)
+        if not cands and '::' in q:
+            # moved item: a function that changed module (or impl block) is not an alarm - fall back to the bare name
+            # (with its owner type if the query had one) when that is unique
+            parts = q.split('::')
+            nm = parts[-1]
+            own = parts[-2] if len(parts) >= 2 and parts[-2][:1].isupper() else None
+            alt = [f for f in self._by_name.get(nm, []) if (own is None and f.owner is None) or (own is not None and f.owner == own)]
+            if crate:
+                alt = [f for f in alt if f.crate == crate]
+            if len(alt) == 1:
+                cands = alt
         if crate:
             cands = [f for f in cands if f.crate == crate]
         if trait is not None:
